@@ -39,3 +39,27 @@ func TestVerifC01Debug(t *testing.T) {
 		}
 	}
 }
+
+// TestVerifC01Seq: manual aid. VERIF_SEQ="name type flags[;name type flags…]" (flags: letters of d=DO c=CD a=AD o=OPT, "-" for none)
+// asks the queries in order from one cold state and prints every reply with its upstream exchanges.
+func TestVerifC01Seq(t *testing.T) {
+	spec := os.Getenv("VERIF_SEQ")
+	if spec == "" {
+		t.Skip()
+	}
+	c := vkit.Init("C01/seq")
+	w, err := vkGetWorld(c, 0)
+	if err != nil {
+		t.Fatal(err)
+	}
+	w.pl.Reset()
+	for _, one := range strings.Split(spec, ";") {
+		f := strings.Fields(one)
+		fl := h_resolver.Flags{DO: strings.Contains(f[2], "d"), CD: strings.Contains(f[2], "c"), AD: strings.Contains(f[2], "a"), OPT: strings.Contains(f[2], "o")}
+		q := vkQuery{Name: f[0], Type: dns.StringToType[f[1]], F: fl}
+		n0 := len(w.sim.Log())
+		r := w.pl.Ask(q.Name, q.Type, q.F, "tcp")
+		v := w.vkJudge(q, r, false)
+		fmt.Printf("== %s -> %s %s\n   upstream: %s\n%v\n", q, v.Outcome, v.Viol, vkPathStr(w.sim.Log()[n0:]), r.Msg)
+	}
+}
